@@ -154,7 +154,8 @@ func TestC15(t *testing.T) {
 		v := gen.NewV(t, gen.VocabOpts{Hostile: true, Refs: true, OptPct: 40, Budget: 60})
 		c := codecCase{Kind: kind, Doc: string(mustJSON(v.Instance(kind)))}
 		f, st := oracleC15(c)
-		r.Eval()
+		r.EvalN(st.asserted) // one evaluation = one pointer looked up on both forms
+		r.Count("documents", 1)
 		r.Label("kind=" + kind)
 		r.Count("pointers enumerated", st.pointers)
 		r.Count("pointers asserted", st.asserted)
